@@ -262,6 +262,43 @@ fn event_static_counter_wraps<S: crate::novelty::Subject<Op = Op>>(rep: &mut Rep
     crate::hidden::counter_wraps(rep, "Keyboard::process_keyevent", &mut step, 2000);
 }
 
+/// The runs of key codes spelled out in the tree's source (mon_through::magic_key_histories), under the subject's oracle.
+fn magic_histories<S: crate::novelty::Subject<Op = Op>>(rep: &mut Report) {
+    let hs = crate::mon_through::magic_key_histories();
+    let mut n = 0u64;
+    for h in hs.iter() {
+        let ops: Vec<Op> = h
+            .iter()
+            .map(|o| match o {
+                crate::mon_through::HOp::Ev(k, s) => Op::Ev(*k, *s),
+                crate::mon_through::HOp::Mode(m) => Op::Mode(MODES[*m]),
+                crate::mon_through::HOp::Extra(x) => Op::Extra(*x),
+            })
+            .collect();
+        let r = guarded(|| {
+            let mut s = S::fresh();
+            for (i, op) in ops.iter().enumerate() {
+                if let Some(v) = s.apply(op) {
+                    return Some((i, v));
+                }
+            }
+            None
+        });
+        n += ops.len() as u64;
+        if let Ok(Some((i, (sig, what)))) = r {
+            let shown: Vec<String> = ops[..=i].iter().map(|o| o.show()).collect();
+            let (want, got) = (sig.split("|want=").nth(1).and_then(|x| x.split("|got=").next()).unwrap_or("").to_string(), sig.split("|got=").nth(1).unwrap_or("").to_string());
+            rep.violate(
+                sig,
+                format!("after [{}]: {}", shown[..i].join(", "), what),
+                J::obj().with("kind", J::s("events")).with("layout", J::s(layout_name(0))).with("initial_mode", J::s("Map")).with("ops", J::strs(shown)).with("expected_last", J::s(want)).with("observed_last", J::s(got)),
+            );
+        }
+    }
+    rep.evaluations += n;
+    rep.count("events_in_histories_built_round_key_runs_spelled_out_in_the_source", n);
+}
+
 fn run_exploration<S: crate::novelty::Subject<Op = Op>>(rep: &mut Report, uni: &[KeyCode]) {
     let budget = if rep.thorough() { 400_000 } else { 30_000 };
     let ex = crate::novelty::explore::<S>(all_event_ops(uni), |o: &Op| o.show(), budget, n_threads());
@@ -466,6 +503,7 @@ pub fn run_c04(rep: &mut Report) {
 
     // ---------------------------------------------------------------- novelty-guided exploration, then hostile event histories
     run_exploration::<S04>(rep, &uni);
+    magic_histories::<S04>(rep);
     hostile_histories(rep, &uni);
 
     rep.distinct_nontrivial = changed.len() as u64;
@@ -1166,6 +1204,7 @@ pub fn run_c14(rep: &mut Report) {
     }
 
     run_exploration::<S14>(rep, &uni);
+    magic_histories::<S14>(rep);
     rep.distinct_nontrivial = distinct_all.len() as u64;
     rep.exhaustive = Some(states.len() < BFS_CAP);
     rep.rule = "a recording layout answers every consultation with a unique token, so a decoded key identifies the exact map_keycode call that produced it; from every one of the decoder's states (BFS closure) every key × {Down, Up, SingleShot} is applied: releases/one-shots must yield None, modifier/lock presses their own raw key (NumLock under the hidden Ctrl → PauseBreak), any other press the token of exactly one call made with (that key, the decoder's live modifiers, the current mode) on the currently installed layout instance; \
